@@ -196,6 +196,7 @@ def c16(run):
     P = run.prog('rel')
     r_lenread.run(run, P)
     r_lenread.run_outcap(run, P)
+    r_lenread.run_accum_guard(run, P)
     r_uriclass.run(run, P)
     from rules import r_sizefill
     r_sizefill.run(run, P, units=('coap_uri.c',))
@@ -222,6 +223,7 @@ def c15(run):
     r_replay.run_must(run, P)
     from rules import r_ssn
     r_ssn.run(run, P)
+    r_ssn.run_echo_piv(run, P)
     run.min_instances('R-RANGE', 4)
     run.min_instances('R-REPLAY-OWN', 8)
     run.min_instances('R-REPLAY-RB', 5)
